@@ -405,4 +405,468 @@ theorem agree_post (op : PostfixOperator) (e : Spec.Expr) (hs : Spec.inScope (.p
   · exact agree_post_var op x
   · exact agree_post_nonvar op e hne hc
 
+/-! #### binary operators: unfolding lemmas -/
+
+theorem expandVariable_congr {x : Name} {env env' : Env} (h : env'.get x = env.get x) :
+    expandVariable x env' = expandVariable x env := by
+  unfold expandVariable; rw [h]
+
+theorem intoValue_frame {t : Term} {env env' : Env}
+    (h : ∀ x, t = .variable x → env'.get x = env.get x) : intoValue t env' = intoValue t env := by
+  cases t with
+  | value v => rfl
+  | «variable» x => exact expandVariable_congr (h x rfl)
+
+theorem evalTree_bin_general (op : BinaryOperator) (l r : Spec.Expr) (env : Env)
+    (h1 : op ≠ .LogicalOr) (h2 : op ≠ .LogicalAnd) :
+    evalTree (.bin op l r) env =
+      (evalTree l env).bind fun (p : Term × Env) =>
+      (evalTree r p.2).bind fun (q : Term × Env) => valueTerm (applyBinary p.1 q.1 op q.2) := by
+  rw [evalTree, if_neg h1, if_neg h2]
+
+theorem applyBinary_plain {op : BinaryOperator} (hk : binKind op = .plain) (lt rt : Term) (env : Env) :
+    applyBinary lt rt op env =
+      (intoValue lt env).bind fun l => (intoValue rt env).bind fun r =>
+      (binaryResult op l r).bind fun v => .ok (v, env) := by
+  unfold applyBinary; rw [hk]
+
+theorem applyBinary_assign {op : BinaryOperator} (hk : binKind op = .assign) (lt rt : Term) (env : Env) :
+    applyBinary lt rt op env =
+      (requireVariable lt).bind fun name => (intoValue rt env).bind fun v => assign name v env := by
+  unfold applyBinary; rw [hk]
+
+theorem applyBinary_compound {op : BinaryOperator} (hk : binKind op = .compound) (lt rt : Term) (env : Env) :
+    applyBinary lt rt op env =
+      (requireVariable lt).bind fun name => (expandVariable name env).bind fun l =>
+      (intoValue rt env).bind fun r => (binaryResult op l r).bind fun v => assign name v env := by
+  unfold applyBinary; rw [hk]
+
+theorem not_lazy_of_kind {op : BinaryOperator} (hk : Spec.kindOf op ≠ .plain) :
+    op ≠ .LogicalOr ∧ op ≠ .LogicalAnd := by
+  cases op <;> first | (exact absurd (by decide) hk) | exact ⟨by decide, by decide⟩
+
+theorem evalExact_bin_plain (op : BinaryOperator) (l r : Spec.Expr) (env : Env)
+    (h1 : op ≠ .LogicalOr) (h2 : op ≠ .LogicalAnd) (hk : Spec.kindOf op = .plain) :
+    Spec.evalExact (.bin op l r) env =
+      (Spec.evalExact l env).bind fun p => (Spec.evalExact r p.2).bind fun q =>
+        (Spec.arith op p.1 q.1).map fun v => (v, q.2) := by
+  rcases var_or_not l with ⟨x, rfl⟩ | hne
+  · conv => lhs; rw [Spec.evalExact]
+    rw [if_neg h1, if_neg h2]; simp only [hk]
+  · rw [Spec.evalExact, if_neg h1, if_neg h2]
+    · simp only [hk]
+    · exact fun x hx => hne x hx
+
+theorem evalExact_bin_assign_var (op : BinaryOperator) (x : Name) (r : Spec.Expr) (env : Env)
+    (hk : Spec.kindOf op = .assign) :
+    Spec.evalExact (.bin op (.var x) r) env =
+      (Spec.evalExact r env).map fun q => (q.1, Spec.writeVar q.2 x q.1) := by
+  obtain ⟨h1, h2⟩ := not_lazy_of_kind (op := op) (by rw [hk]; decide)
+  rw [Spec.evalExact, if_neg h1, if_neg h2]; simp only [hk]
+
+theorem evalExact_bin_compound_var (op : BinaryOperator) (x : Name) (r : Spec.Expr) (env : Env)
+    (hk : Spec.kindOf op = .compound) :
+    Spec.evalExact (.bin op (.var x) r) env =
+      (Spec.readVar env x).bind fun a => (Spec.evalExact r env).bind fun q =>
+        (Spec.arith op a q.1).map fun v => (v, Spec.writeVar q.2 x v) := by
+  obtain ⟨h1, h2⟩ := not_lazy_of_kind (op := op) (by rw [hk]; decide)
+  rw [Spec.evalExact, if_neg h1, if_neg h2]; simp only [hk]
+
+theorem evalExact_bin_lvalue_nonvar (op : BinaryOperator) (l r : Spec.Expr) (env : Env)
+    (hk : Spec.kindOf op ≠ .plain) (hne : ∀ x, l ≠ .var x) :
+    Spec.evalExact (.bin op l r) env = none := by
+  obtain ⟨h1, h2⟩ := not_lazy_of_kind hk
+  rw [Spec.evalExact, if_neg h1, if_neg h2]
+  · cases hk' : Spec.kindOf op with
+    | plain => exact absurd hk' hk
+    | assign => rfl
+    | compound => rfl
+  · exact fun x hx => hne x hx
+
+/-! #### `||` and `&&` -/
+
+theorem agree_or (l r : Spec.Expr) (ihl : Agree l) (ihr : Agree r) : Agree (.bin .LogicalOr l r) := by
+  intro env
+  have hS : Spec.evalExact (.bin .LogicalOr l r) env =
+      (Spec.evalExact l env).bind fun p => if p.1 ≠ 0 then some (1, p.2)
+        else (Spec.evalExact r p.2).map fun q => (Spec.truth (q.1 ≠ 0), q.2) := by
+    rcases var_or_not l with ⟨x, rfl⟩ | hne
+    · conv => lhs; rw [Spec.evalExact]
+      simp
+    · rw [Spec.evalExact]
+      · simp
+      · exact fun x hx => hne x hx
+  have hM : evalTree (.bin .LogicalOr l r) env =
+      (evalTree l env).bind fun (p : Term × Env) => (intoValue p.1 p.2).bind fun a =>
+        if a ≠ 0 then .ok (.value 1, p.2)
+        else (evalTree r p.2).bind fun (q : Term × Env) => (intoValue q.1 q.2).bind fun b =>
+          (binaryResult .LogicalOr a b).bind fun v => .ok (.value v, q.2) := by
+    rw [evalTree]; simp
+  rw [hS]
+  cases hl : Spec.evalExact l env with
+  | none =>
+    refine ⟨by simp [Option.bind], fun _ => ?_⟩
+    obtain ⟨err, he⟩ := ((ihl env).2 hl).read (fun _ env1 a => if a ≠ 0 then .ok (.value 1, env1)
+        else (evalTree r env1).bind fun (q : Term × Env) => (intoValue q.1 q.2).bind fun b =>
+          (binaryResult .LogicalOr a b).bind fun v => .ok (Term.value v, q.2))
+    exact Or.inl ⟨err, by rw [hM]; exact he⟩
+  | some p =>
+    obtain ⟨a, env1⟩ := p
+    obtain ⟨_, lt, hlt, hlv⟩ := (ihl env).1 a env1 hl
+    simp only [Option.bind]
+    by_cases ha : a ≠ 0
+    · rw [if_pos ha]
+      refine ⟨?_, by simp⟩
+      intro v env' he
+      simp only [Option.some.injEq, Prod.mk.injEq] at he
+      obtain ⟨rfl, rfl⟩ := he
+      refine ⟨by unfold InRange; omega, .value 1, ?_, rfl⟩
+      rw [hM, hlt]; simp only [Res.bind, hlv]; rw [if_pos ha]
+    · rw [if_neg ha]
+      have hM' : evalTree (.bin .LogicalOr l r) env =
+          (evalTree r env1).bind fun (q : Term × Env) => (intoValue q.1 q.2).bind fun b =>
+            (binaryResult .LogicalOr a b).bind fun v => .ok (.value v, q.2) := by
+        rw [hM, hlt]; simp only [Res.bind, hlv]; rw [if_neg ha]
+      cases hr : Spec.evalExact r env1 with
+      | none =>
+        refine ⟨by simp [Option.map], fun _ => ?_⟩
+        obtain ⟨err, he⟩ := ((ihr env1).2 hr).read (fun _ env2 b =>
+          (binaryResult .LogicalOr a b).bind fun v => .ok (Term.value v, env2))
+        exact Or.inl ⟨err, by rw [hM']; exact he⟩
+      | some q =>
+        obtain ⟨b, env2⟩ := q
+        obtain ⟨_, rt, hrt, hrv⟩ := (ihr env1).1 b env2 hr
+        refine ⟨?_, by simp [Option.map]⟩
+        intro v env' he
+        simp only [Option.map, Option.some.injEq, Prod.mk.injEq] at he
+        obtain ⟨rfl, rfl⟩ := he
+        refine ⟨truth_inRange' _, .value (Spec.truth (b ≠ 0)), ?_, rfl⟩
+        rw [hM', hrt]; simp only [Res.bind, hrv]
+        have ha0 : a = 0 := by omega
+        subst ha0
+        by_cases hb : b = 0 <;>
+          simp [binaryResult, binaryChecked, Res.bind, Res.ofOption, boolInt, Spec.truth, hb]
+
+theorem agree_and (l r : Spec.Expr) (ihl : Agree l) (ihr : Agree r) : Agree (.bin .LogicalAnd l r) := by
+  intro env
+  have hS : Spec.evalExact (.bin .LogicalAnd l r) env =
+      (Spec.evalExact l env).bind fun p => if p.1 = 0 then some (0, p.2)
+        else (Spec.evalExact r p.2).map fun q => (Spec.truth (q.1 ≠ 0), q.2) := by
+    rcases var_or_not l with ⟨x, rfl⟩ | hne
+    · conv => lhs; rw [Spec.evalExact]
+      simp
+    · rw [Spec.evalExact]
+      · simp
+      · exact fun x hx => hne x hx
+  have hM : evalTree (.bin .LogicalAnd l r) env =
+      (evalTree l env).bind fun (p : Term × Env) => (intoValue p.1 p.2).bind fun a =>
+        if a = 0 then .ok (.value 0, p.2)
+        else (evalTree r p.2).bind fun (q : Term × Env) => (intoValue q.1 q.2).bind fun b =>
+          (binaryResult .LogicalAnd a b).bind fun v => .ok (.value v, q.2) := by
+    rw [evalTree]; simp
+  rw [hS]
+  cases hl : Spec.evalExact l env with
+  | none =>
+    refine ⟨by simp [Option.bind], fun _ => ?_⟩
+    obtain ⟨err, he⟩ := ((ihl env).2 hl).read (fun _ env1 a => if a = 0 then .ok (.value 0, env1)
+        else (evalTree r env1).bind fun (q : Term × Env) => (intoValue q.1 q.2).bind fun b =>
+          (binaryResult .LogicalAnd a b).bind fun v => .ok (Term.value v, q.2))
+    exact Or.inl ⟨err, by rw [hM]; exact he⟩
+  | some p =>
+    obtain ⟨a, env1⟩ := p
+    obtain ⟨_, lt, hlt, hlv⟩ := (ihl env).1 a env1 hl
+    simp only [Option.bind]
+    by_cases ha : a = 0
+    · rw [if_pos ha]
+      refine ⟨?_, by simp⟩
+      intro v env' he
+      simp only [Option.some.injEq, Prod.mk.injEq] at he
+      obtain ⟨rfl, rfl⟩ := he
+      refine ⟨by unfold InRange; omega, .value 0, ?_, rfl⟩
+      rw [hM, hlt]; simp only [Res.bind, hlv]; rw [if_pos ha]
+    · rw [if_neg ha]
+      have hM' : evalTree (.bin .LogicalAnd l r) env =
+          (evalTree r env1).bind fun (q : Term × Env) => (intoValue q.1 q.2).bind fun b =>
+            (binaryResult .LogicalAnd a b).bind fun v => .ok (.value v, q.2) := by
+        rw [hM, hlt]; simp only [Res.bind, hlv]; rw [if_neg ha]
+      cases hr : Spec.evalExact r env1 with
+      | none =>
+        refine ⟨by simp [Option.map], fun _ => ?_⟩
+        obtain ⟨err, he⟩ := ((ihr env1).2 hr).read (fun _ env2 b =>
+          (binaryResult .LogicalAnd a b).bind fun v => .ok (Term.value v, env2))
+        exact Or.inl ⟨err, by rw [hM']; exact he⟩
+      | some q =>
+        obtain ⟨b, env2⟩ := q
+        obtain ⟨_, rt, hrt, hrv⟩ := (ihr env1).1 b env2 hr
+        refine ⟨?_, by simp [Option.map]⟩
+        intro v env' he
+        simp only [Option.map, Option.some.injEq, Prod.mk.injEq] at he
+        obtain ⟨rfl, rfl⟩ := he
+        refine ⟨truth_inRange' _, .value (Spec.truth (b ≠ 0)), ?_, rfl⟩
+        rw [hM', hrt]; simp only [Res.bind, hrv]
+        by_cases hb : b = 0 <;>
+          simp [binaryResult, binaryChecked, Res.bind, Res.ofOption, boolInt, Spec.truth, hb, ha]
+
+/-! #### operators without sequence point -/
+
+theorem disjoint_not_mem {a b : List Name} (h : Spec.disjoint a b = true) {x : Name} (hx : x ∈ b) : x ∉ a := by
+  intro hxa
+  unfold Spec.disjoint at h
+  rw [List.all_eq_true] at h
+  have := h x hxa
+  simp only [Bool.not_eq_true', List.contains_eq_mem, decide_eq_false_iff_not] at this
+  exact this hx
+
+theorem agree_plain (op : BinaryOperator) (l r : Spec.Expr) (h1 : op ≠ .LogicalOr) (h2 : op ≠ .LogicalAnd)
+    (hk : Spec.kindOf op = .plain) (hsr : Spec.inScope r = true)
+    (hd : Spec.disjoint (Spec.writes r) (Spec.reads l) = true)
+    (ihl : Agree l) (ihr : Agree r) : Agree (.bin op l r) := by
+  intro env
+  have hkb : binKind op = .plain := (kindOf_eq_binKind op).1.mp hk
+  rw [evalExact_bin_plain op l r env h1 h2 hk]
+  have hM := evalTree_bin_general op l r env h1 h2
+  -- the value of the left term is unchanged by the evaluation of `r`
+  have hframe : ∀ lt env1 rt env2, evalTree l env = .ok (lt, env1) → evalTree r env1 = .ok (rt, env2) →
+      intoValue lt env2 = intoValue lt env1 := by
+    intro lt env1 rt env2 hlt hrt
+    apply intoValue_frame
+    intro x hx
+    subst hx
+    exact evalTree_frame r env1 rt env2 x hsr hrt (disjoint_not_mem hd (evalTree_variable_reads l _ _ _ hlt))
+  cases hl : Spec.evalExact l env with
+  | none =>
+    refine ⟨by simp [Option.bind], fun _ => Or.inl ?_⟩
+    rcases (ihl env).2 hl with ⟨err, he⟩ | ⟨x, env1, err, he, hv⟩
+    · exact ⟨err, by rw [hM, he]; rfl⟩
+    · rw [hM, he]
+      simp only [Res.bind]
+      have hret := evalTree_returns r env1
+      cases hr : evalTree r env1 with
+      | ok q =>
+        obtain ⟨rt, env2⟩ := q
+        have hv2 : intoValue (.variable x) env2 = .error err := by rw [hframe _ _ _ _ he hr, hv]
+        exact ⟨err, by simp [applyBinary_plain hkb, hv2, Res.bind, valueTerm]⟩
+      | error e => exact ⟨e, rfl⟩
+      | panic => rw [hr] at hret; exact hret.elim
+      | fuel => rw [hr] at hret; exact hret.elim
+  | some p =>
+    obtain ⟨a, env1⟩ := p
+    obtain ⟨har, lt, hlt, hlv⟩ := (ihl env).1 a env1 hl
+    simp only [Option.bind]
+    cases hr : Spec.evalExact r env1 with
+    | none =>
+      refine ⟨by simp, fun _ => Or.inl ?_⟩
+      rcases (ihr env1).2 hr with ⟨err, he⟩ | ⟨y, env2, err, he, hv⟩
+      · exact ⟨err, by rw [hM, hlt]; simp only [Res.bind, he]⟩
+      · rw [hM, hlt]
+        simp only [Res.bind, he, applyBinary_plain hkb]
+        have hret := intoValue_returns lt env2
+        cases hlv2 : intoValue lt env2 with
+        | ok a2 => exact ⟨err, by simp [hv, Res.bind, valueTerm]⟩
+        | error e => exact ⟨e, by simp [Res.bind, valueTerm]⟩
+        | panic => rw [hlv2] at hret; exact hret.elim
+        | fuel => rw [hlv2] at hret; exact hret.elim
+    | some q =>
+      obtain ⟨b, env2⟩ := q
+      obtain ⟨hbr, rt, hrt, hrv⟩ := (ihr env1).1 b env2 hr
+      have hlv2 : intoValue lt env2 = .ok a := by rw [hframe _ _ _ _ hlt hrt, hlv]
+      have hM2 : evalTree (.bin op l r) env = valueTerm ((binaryResult op a b).bind fun v => .ok (v, env2)) := by
+        rw [hM, hlt]; simp only [Res.bind, hrt, applyBinary_plain hkb, hlv2, hrv]
+      simp only
+      cases ha : Spec.arith op a b with
+      | none =>
+        refine ⟨by simp [Option.map], fun _ => Or.inl ?_⟩
+        obtain ⟨err, he⟩ := binaryResult_of_none har hbr ha
+        exact ⟨err, by rw [hM2, he]; rfl⟩
+      | some v =>
+        obtain ⟨hbv, hvr⟩ := binaryResult_of_some har hbr ha
+        refine ⟨?_, by simp [Option.map]⟩
+        intro v' env' he
+        simp only [Option.map, Option.some.injEq, Prod.mk.injEq] at he
+        obtain ⟨rfl, rfl⟩ := he
+        exact ⟨hvr, .value v, by rw [hM2, hbv]; rfl, rfl⟩
+
+/-- assignment and compound assignment whose left operand is not a variable (nor a conditional) -/
+theorem agree_lvalue_nonvar (op : BinaryOperator) (l r : Spec.Expr) (hk : Spec.kindOf op ≠ .plain)
+    (hne : ∀ x, l ≠ .var x) (hc : Spec.isCond l = false) : Agree (.bin op l r) := by
+  intro env
+  obtain ⟨h1, h2⟩ := not_lazy_of_kind hk
+  rw [evalExact_bin_lvalue_nonvar op l r env hk hne]
+  refine ⟨by simp, fun _ => Or.inl ?_⟩
+  have hM := evalTree_bin_general op l r env h1 h2
+  rcases nonlazy_cases l env (isLazy_false_of l hne hc) with ⟨err, he⟩ | ⟨v, env1, he⟩
+  · exact ⟨err, by rw [hM, he]; rfl⟩
+  · rw [hM, he]
+    simp only [Res.bind]
+    have hret := evalTree_returns r env1
+    cases hr : evalTree r env1 with
+    | ok q =>
+      obtain ⟨rt, env2⟩ := q
+      refine ⟨.assignmentToValue, ?_⟩
+      have hkb : binKind op ≠ .plain := fun h => hk ((kindOf_eq_binKind op).1.mpr h)
+      cases hb : binKind op with
+      | plain => exact absurd hb hkb
+      | assign => simp [applyBinary_assign hb, requireVariable, Res.bind, valueTerm]
+      | compound => simp [applyBinary_compound hb, requireVariable, Res.bind, valueTerm]
+    | error e => exact ⟨e, rfl⟩
+    | panic => rw [hr] at hret; exact hret.elim
+    | fuel => rw [hr] at hret; exact hret.elim
+
+theorem agree_assign_var (op : BinaryOperator) (x : Name) (r : Spec.Expr) (hk : Spec.kindOf op = .assign)
+    (ihr : Agree r) : Agree (.bin op (.var x) r) := by
+  intro env
+  obtain ⟨h1, h2⟩ := not_lazy_of_kind (op := op) (by rw [hk]; decide)
+  have hkb : binKind op = .assign := (kindOf_eq_binKind op).2.1.mp hk
+  rw [evalExact_bin_assign_var op x r env hk]
+  have hM : evalTree (.bin op (.var x) r) env =
+      (evalTree r env).bind fun (q : Term × Env) => valueTerm (applyBinary (.variable x) q.1 op q.2) := by
+    rw [evalTree_bin_general op _ r env h1 h2]; simp [evalTree, Res.bind]
+  cases hr : Spec.evalExact r env with
+  | none =>
+    refine ⟨by simp, fun _ => Or.inl ?_⟩
+    rcases (ihr env).2 hr with ⟨err, he⟩ | ⟨y, env1, err, he, hv⟩
+    · exact ⟨err, by rw [hM, he]; rfl⟩
+    · exact ⟨err, by rw [hM, he]; simp [applyBinary_assign hkb, requireVariable, hv, Res.bind, valueTerm]⟩
+  | some q =>
+    obtain ⟨b, env1⟩ := q
+    obtain ⟨hbr, rt, hrt, hrv⟩ := (ihr env).1 b env1 hr
+    refine ⟨?_, by simp [Option.map]⟩
+    intro v' env' he
+    simp only [Option.map, Option.some.injEq, Prod.mk.injEq] at he
+    obtain ⟨rfl, rfl⟩ := he
+    refine ⟨hbr, .value b, ?_, rfl⟩
+    rw [hM, hrt, writeVar_eq]
+    simp [applyBinary_assign hkb, requireVariable, hrv, Res.bind, valueTerm, assign]
+
+theorem agree_compound_var (op : BinaryOperator) (x : Name) (r : Spec.Expr) (hk : Spec.kindOf op = .compound)
+    (hsr : Spec.inScope r = true) (hd : Spec.disjoint (Spec.writes r) (Spec.reads (.var x)) = true)
+    (ihr : Agree r) : Agree (.bin op (.var x) r) := by
+  intro env
+  obtain ⟨h1, h2⟩ := not_lazy_of_kind (op := op) (by rw [hk]; decide)
+  have hkb : binKind op = .compound := (kindOf_eq_binKind op).2.2.mp hk
+  rw [evalExact_bin_compound_var op x r env hk]
+  have hM : evalTree (.bin op (.var x) r) env =
+      (evalTree r env).bind fun (q : Term × Env) => valueTerm (applyBinary (.variable x) q.1 op q.2) := by
+    rw [evalTree_bin_general op _ r env h1 h2]; simp [evalTree, Res.bind]
+  have hxw : x ∉ Spec.writes r := disjoint_not_mem hd (by simp [Spec.reads])
+  have hframe : ∀ rt env1, evalTree r env = .ok (rt, env1) → expandVariable x env1 = expandVariable x env :=
+    fun rt env1 hrt => expandVariable_congr (evalTree_frame r env rt env1 x hsr hrt hxw)
+  cases hx : Spec.readVar env x with
+  | none =>
+    refine ⟨by simp [Option.bind], fun _ => Or.inl ?_⟩
+    have hret := evalTree_returns r env
+    cases hr : evalTree r env with
+    | ok q =>
+      obtain ⟨rt, env1⟩ := q
+      refine ⟨.invalidVariableValue, ?_⟩
+      rw [hM, hr]
+      simp [applyBinary_compound hkb, requireVariable, hframe rt env1 hr, expandVariable_of_none hx, Res.bind,
+        valueTerm]
+    | error e => exact ⟨e, by rw [hM, hr]; rfl⟩
+    | panic => rw [hr] at hret; exact hret.elim
+    | fuel => rw [hr] at hret; exact hret.elim
+  | some a =>
+    have har := readVar_inRange hx
+    simp only [Option.bind]
+    cases hr : Spec.evalExact r env with
+    | none =>
+      refine ⟨by simp, fun _ => Or.inl ?_⟩
+      rcases (ihr env).2 hr with ⟨err, he⟩ | ⟨y, env1, err, he, hv⟩
+      · exact ⟨err, by rw [hM, he]; rfl⟩
+      · exact ⟨err, by
+          rw [hM, he]
+          simp [applyBinary_compound hkb, requireVariable, hframe _ env1 he, expandVariable_of_some hx, hv,
+            Res.bind, valueTerm]⟩
+    | some q =>
+      obtain ⟨b, env1⟩ := q
+      obtain ⟨hbr, rt, hrt, hrv⟩ := (ihr env).1 b env1 hr
+      have hM2 : evalTree (.bin op (.var x) r) env =
+          valueTerm ((binaryResult op a b).bind fun v => assign x v env1) := by
+        rw [hM, hrt]
+        simp [applyBinary_compound hkb, requireVariable, hframe rt env1 hrt, expandVariable_of_some hx, hrv,
+          Res.bind]
+      simp only
+      cases ha : Spec.arith op a b with
+      | none =>
+        refine ⟨by simp [Option.map], fun _ => Or.inl ?_⟩
+        obtain ⟨err, he⟩ := binaryResult_of_none har hbr ha
+        exact ⟨err, by rw [hM2, he]; rfl⟩
+      | some v =>
+        obtain ⟨hbv, hvr⟩ := binaryResult_of_some har hbr ha
+        refine ⟨?_, by simp [Option.map]⟩
+        intro v' env' he
+        simp only [Option.map, Option.some.injEq, Prod.mk.injEq] at he
+        obtain ⟨rfl, rfl⟩ := he
+        exact ⟨hvr, .value v, by rw [hM2, hbv, writeVar_eq]; rfl, rfl⟩
+
+/-! ### assembly -/
+
+theorem agree_bin (op : BinaryOperator) (l r : Spec.Expr) (hs : Spec.inScope (.bin op l r) = true)
+    (ihl : Agree l) (ihr : Agree r) : Agree (.bin op l r) := by
+  simp only [Spec.inScope, Bool.and_eq_true] at hs
+  obtain ⟨⟨_, hsr⟩, hs3⟩ := hs
+  by_cases h1 : op = .LogicalOr
+  · subst h1; exact agree_or l r ihl ihr
+  by_cases h2 : op = .LogicalAnd
+  · subst h2; exact agree_and l r ihl ihr
+  have hno : ¬ (op = .LogicalOr ∨ op = .LogicalAnd) := fun h => h.elim h1 h2
+  rw [if_neg hno] at hs3
+  by_cases hk : Spec.kindOf op = .plain
+  · rw [if_pos hk] at hs3
+    simp only [Bool.and_eq_true] at hs3
+    exact agree_plain op l r h1 h2 hk hsr hs3.2 ihl ihr
+  · rw [if_neg hk] at hs3
+    simp only [Bool.and_eq_true, Bool.not_eq_true'] at hs3
+    obtain ⟨⟨hc, hd⟩, _⟩ := hs3
+    rcases var_or_not l with ⟨x, rfl⟩ | hne
+    · cases hk' : Spec.kindOf op with
+      | plain => exact absurd hk' hk
+      | assign => exact agree_assign_var op x r hk' ihr
+      | compound => exact agree_compound_var op x r hk' hsr hd ihr
+    · exact agree_lvalue_nonvar op l r hk hne hc
+
+/-- on every tree in the Spec's scope whose literals fit i64, the Model's tree evaluation agrees with the
+    Spec in every environment -/
+theorem agree (e : Spec.Expr) : Spec.inScope e = true → litsInRange e → Agree e := by
+  induction e with
+  | num v => intro _ hl; exact agree_num v hl
+  | var x => intro _ _; exact agree_var x
+  | pre op e ih =>
+    intro hs hl
+    have hse : Spec.inScope e = true := by
+      simp only [Spec.inScope, Bool.and_eq_true] at hs; exact hs.1
+    exact agree_pre op e hs (ih hse hl)
+  | post op e _ =>
+    intro hs _
+    exact agree_post op e hs
+  | bin op l r ihl ihr =>
+    intro hs hl
+    have hs' := hs
+    simp only [Spec.inScope, Bool.and_eq_true] at hs'
+    exact agree_bin op l r hs (ihl hs'.1.1 hl.1) (ihr hs'.1.2 hl.2)
+  | cond c t e ihc iht ihe =>
+    intro hs hl
+    simp only [Spec.inScope, Bool.and_eq_true] at hs
+    exact agree_cond c t e (ihc hs.1.1 hl.1) (iht hs.1.2 hl.2.1) (ihe hs.2 hl.2.2)
+
+/-- the same, for the reverse-Polish vector the parser lays out and `lib.rs`'s `eval` + `into_value` -/
+theorem evalValue_rpn (e : Spec.Expr) (env : Env) (hs : Spec.inScope e = true) (hl : litsInRange e) :
+    match Spec.evalExact e env with
+    | some (v, env') => evalValue (rpn e) env = .ok (v, env')
+    | none => ∃ err, evalValue (rpn e) env = .error err := by
+  have hE : evalValue (rpn e) env =
+      (evalTree e env).bind fun (p : Term × Env) => (intoValue p.1 p.2).bind fun v => .ok (v, p.2) := by
+    unfold evalValue; rw [eval_rpn_tree e _ env (Nat.le_refl _)]
+  have hA := agree e hs hl env
+  cases hc : Spec.evalExact e env with
+  | none =>
+    simp only
+    obtain ⟨err, he⟩ := (hA.2 hc).read (fun _ env1 v => Res.ok (v, env1))
+    exact ⟨err, by rw [hE]; exact he⟩
+  | some p =>
+    obtain ⟨v, env'⟩ := p
+    obtain ⟨_, t, ht, hv⟩ := hA.1 v env' hc
+    simp only
+    rw [hE, ht]; simp only [Res.bind, hv]
+
 end YashModel.Arith
